@@ -102,8 +102,8 @@ func c19r2(r *R) {
 		p := ""
 		ok := false
 		for _, c := range calls(fn, nameIs("strings.HasPrefix")) {
-			if describe(c.Common().Args[0]) == "$0" {
-				p, ok = constString(c.Common().Args[1])
+			if describe(refArgs(c.Common())[0]) == "$0" {
+				p, ok = constString(refArgs(c.Common())[1])
 			}
 		}
 		return p, ok
